@@ -182,6 +182,28 @@ Section Length.
       (cabs (csub N (pt p) (pt a)) + fst b,
        sqrt_ T ((p - a) * (G p - G a)) + snd b)
     end.
+  (* the same bracket on pre-evaluated samples (t, point t, G t): lets the
+     correspondence check share each cos/sin evaluation *)
+  Definition sample : Type := (K * Cplx K * K)%type.
+  Fixpoint part_bracket_v (a : sample) (ps : list sample) : K * K :=
+    match ps with
+    | [] => (zero N, zero N)
+    | p :: r =>
+      let b := part_bracket_v p r in
+      (cabs (csub N (snd (fst p)) (snd (fst a))) + fst b,
+       sqrt_ T ((fst (fst p) - fst (fst a)) * (snd p - snd a)) + snd b)
+    end.
+  Definition arc_sample (rx ry cosphi sinphi : K) (center : Cplx K) (theta delta t : K) : sample :=
+    let k := delta * pi_ T / #180 in
+    let an := arc_angle theta delta t in
+    let c := cos_ T an in
+    let s := sin_ T an in
+    let rho := cosphi * cosphi + sinphi * sinphi in
+    (t,
+     (rx * cosphi * c - ry * sinphi * s + re center,
+      rx * sinphi * c + ry * cosphi * s + im center),
+     k * k * rho * (rx * rx + ry * ry) / #2 * t
+     + k * rho * (ry * ry - rx * rx) / #4 * (#2 * s * c)).
   Fixpoint sorted_b (a : K) (ps : list K) : bool :=
     match ps with
     | [] => true
